@@ -102,6 +102,9 @@ type Exec struct {
 	obsNames []string
 	obsTerms []*Node
 	crcSeen  []crcRec
+	bounds   map[*Node]ival
+	nRangeDecided int
+	decimals map[*Node][]*Node
 	afterFuncs []afterFunc
 	timerTicks int
 	idCounter int
@@ -146,6 +149,7 @@ func (e *Exec) assume(c *Node) {
 		return
 	}
 	e.pc = append(e.pc, c)
+	e.noteBounds(c)
 	if sat, ok := e.evalModel(c); ok && sat {
 		return // the cached model of the path condition still holds
 	}
@@ -165,6 +169,14 @@ func (e *Exec) feasible(extra *Node) Verdict {
 	}
 	if sat, ok := e.evalModel(extra); ok && sat {
 		return Sat
+	}
+	switch e.tri(extra) {
+	case 0:
+		e.nRangeDecided++
+		return Unsat
+	case 1:
+		e.nRangeDecided++
+		return Sat // implied by the (satisfiable) path condition
 	}
 	roots := append(append([]*Node{}, e.pc...), extra)
 	q := e.tb.Query(roots)
@@ -203,6 +215,17 @@ func (e *Exec) branch(c *Node) bool {
 		return d == 1
 	}
 	e.di++
+	if r := e.tri(c); r >= 0 {
+		// implied by interval bounds of the path condition: no solver call, no fork
+		e.nRangeDecided++
+		e.trace = append(e.trace, uint64(r))
+		if r == 1 {
+			e.assume(c)
+		} else {
+			e.assume(e.tb.BNot(c))
+		}
+		return r == 1
+	}
 	ft := e.feasible(c)
 	var mT map[string]uint64
 	if e.pendFor == c {
